@@ -322,6 +322,13 @@ func c05Messages(r *rand.Rand, i int) []hostileMsg {
 			// frames before any sequence header, headers afterwards
 			q = append(q, seqMsg{8, 0, af(0)}, seqMsg{9, 0, vf(0, true)}, seqMsg{8, 23, af(1)}, seqMsg{9, 40, vf(1, false)}, seqMsg{9, 80, vsh}, seqMsg{8, 80, ash}, seqMsg{9, 80, vf(2, true)}, seqMsg{8, 90, af(2)})
 			seq("frames-before-headers")
+			// single-media streams that end while lal is still probing the codecs (fewer than 16 messages)
+			q = append(q, seqMsg{9, 0, vsh}, seqMsg{9, 0, vf(0, true)}, seqMsg{9, 40, vf(1, false)}, seqMsg{9, 80, vf(2, false)})
+			seq("short-video-only")
+			q = append(q, seqMsg{8, 0, ash}, seqMsg{8, 0, af(0)}, seqMsg{8, 23, af(1)})
+			seq("short-audio-only")
+			q = append(q, seqMsg{18, 0, gen.Metadata(6, 0, true)}, seqMsg{9, 0, vsh})
+			seq("headers-only")
 			// timestamps that do not advance at all, then jump
 			q = append(q, seqMsg{9, 500, vsh}, seqMsg{8, 500, ash}, seqMsg{9, 500, vf(0, true)})
 			for k := 0; k < 60; k++ {
@@ -420,7 +427,7 @@ func init() {
 		ID:          "C05",
 		NumCases:    func(tier string, seed int64) int { return c05Sizes(tier) },
 		CaseTimeout: func(string) time.Duration { return 10 * time.Minute },
-		Rule: "one sub-input = one well-framed audio/video/metadata message with a hostile payload sent by an accepted reference publisher to the whole in-process server under one of 8 output configurations (all outputs, gop 0/1/2, dummy audio, single outputs, merge write): all 256 one-byte payloads × audio/video, 2..12-byte payloads over the codec-relevant first bytes × packet types, AVC/HEVC(classic+enhanced)/AAC sequence headers truncated at every offset and with corrupted inner lengths, all 2-byte ASCs, enhanced-RTMP headers with other fourccs, NAL length fields that lie (0, beyond the end, 2^31, 2^32−1), zero-length NALs, unknown codec ids, non-AMF metadata, large random payloads, extreme and backward timestamps, bit-flipped valid frames, codec switches mid-stream, metadata nested up to the 16 MiB message limit, and whole side sessions of well-formed messages in unusual orders (long audio run before the first key frame, inter frames before any key frame, late video, late audio, frames before headers, timestamps that stand still) × AVC / HEVC / enhanced HEVC. honest tiny NAL units of every H.264/H.265 type code incl. the RTP aggregation/fragmentation codes; RTMP/FLV/TS joiners attach between messages, RTSP (TCP and UDP) subscribers re-join mid-GOP every 10 messages so that the wait-for-key-frame path inspects the hostile NALs. " +
+		Rule: "one sub-input = one well-framed audio/video/metadata message with a hostile payload sent by an accepted reference publisher to the whole in-process server under one of 8 output configurations (all outputs, gop 0/1/2, dummy audio, single outputs, merge write): all 256 one-byte payloads × audio/video, 2..12-byte payloads over the codec-relevant first bytes × packet types, AVC/HEVC(classic+enhanced)/AAC sequence headers truncated at every offset and with corrupted inner lengths, all 2-byte ASCs, enhanced-RTMP headers with other fourccs, NAL length fields that lie (0, beyond the end, 2^31, 2^32−1), zero-length NALs, unknown codec ids, non-AMF metadata, large random payloads, extreme and backward timestamps, bit-flipped valid frames, codec switches mid-stream, metadata nested up to the 16 MiB message limit, and whole side sessions of well-formed messages in unusual orders (long audio run before the first key frame, inter frames before any key frame, late video, late audio, frames before headers, timestamps that stand still, single-media streams of 3–4 messages, headers only) × AVC / HEVC / enhanced HEVC. honest tiny NAL units of every H.264/H.265 type code incl. the RTP aggregation/fragmentation codes; RTMP/FLV/TS joiners attach between messages, RTSP (TCP and UDP) subscribers re-join mid-GOP every 10 messages so that the wait-for-key-frame path inspects the hostile NALs. " +
 			"monitors: process liveness (crash signature = panic text + innermost lal frame; driver resumes after the crashing message), a marker frame after each hostile message must reach a pre-attached FLV witness (else, with the publisher connection still open, the stream is stalled), amplification counter (tags delivered between consecutive markers), canary stream on another name after each case. cell = config cell × input class.",
 		Assumptions: []string{"lal closing the publisher's connection on an uninterpretable payload is allowed (the case reconnects)", "amplification bound: 8 + size/100 deliveries per input message, or 10 000 when dummy audio is on (intended gap filling)"},
 		MinCells: 20,
